@@ -233,7 +233,7 @@ def rand_case(rng):
                 ops[-1]["self_at"] = rng.randint(0, 2)
         else:
             ops.append({"op": "setitem", "name": rng.choice(names), "v": rand_value(rng)})
-    return {"name": rng.choice(["div", "span", "x-y", "a", "img", "input", "label", "link", "script", "td", "option", "form", "button"]), "via": rng.choice(["fn", "Tag"]), "ctor": {"args": args, "kw": kw}, "ops": ops,
+    return {"name": rng.choice(["div", "span", "x-y", "a", "img", "input", "label", "link", "script", "td", "option", "form", "button"]), "via": rng.choice(["fn", "Tag", "fn", "Tag", "consolidate"]), "ctor": {"args": args, "kw": kw}, "ops": ops,
             "children": rng.random() < 0.3, "after_failures": rng.randint(1, 5) if rng.random() < 0.15 else 0}
 
 
